@@ -46,10 +46,11 @@ type scriptConn struct {
 	coalesce bool // deliver the last bytes before a terminal event together with its error: (n > 0, err)
 	laddr    net.Addr
 	raddr    net.Addr
+	done     chan struct{} // closed by Close (what tcp.Server's connection wrapper offers as Done())
 }
 
 func newScriptConn(evs []rEv, laddr, raddr net.Addr) *scriptConn {
-	c := &scriptConn{evs: evs, laddr: laddr, raddr: raddr, hold: -1}
+	c := &scriptConn{evs: evs, laddr: laddr, raddr: raddr, hold: -1, done: make(chan struct{})}
 	c.cond = sync.NewCond(&c.mu)
 	return c
 }
@@ -155,8 +156,14 @@ func (c *scriptConn) Write(p []byte) (int, error) {
 	return n, err
 }
 
+// Done: closed when the connection is closed, like the connections tcp.Server hands to its handler.
+func (c *scriptConn) Done() <-chan struct{} { return c.done }
+
 func (c *scriptConn) Close() error {
 	c.mu.Lock()
+	if !c.closed {
+		close(c.done)
+	}
 	c.closed = true
 	c.mu.Unlock()
 	c.cond.Broadcast()
